@@ -31,8 +31,8 @@ CLAIM = dict(
 RULE = ("per tier a seeded set of argument values per function (quick 6, thorough 24 value sets x 18 functions), each instantiated for "
         "every container kind the function accepts (rows rejected at compile time are reported as compile-rejected and not counted); "
         "non-trivial = list argument of length >= 2; distinct = distinct (function, values) case")
-THEOREM_STATUS = {"proved": ["C09_fit_implies_ideal", "C09_kinds_agree", "C09_index_functions_kind_independent",
-                             "C09_constexpr_is_same_function"], "partial": [], "refuted": ["C09_clipped_broadcast_refuted"]}
+THEOREM_STATUS = {"proved": ["C09_fit_implies_ideal", "C09_kinds_agree", "C09_index_functions_kind_independent", "C09_broadcast_kind_independent",
+                             "C09_constexpr_is_same_function", "C09_reshape_kind_independent", "C09_broadcast_to_kind_independent"], "partial": [], "refuted": ["C09_clipped_broadcast_refuted"]}
 ASSUMPTIONS = ["a row whose instantiation is rejected by a static_assert of the library is an unsupported combination, not a violation"]
 
 NPART = 4
